@@ -246,7 +246,7 @@ func init() {
 		for _, f := range []struct{ recv, name string }{
 			{"StreamableHTTPHandler", "ServeHTTP"}, {"StreamableHTTPHandler", "serveStateless"}, {"StreamableHTTPHandler", "serveStateful"},
 			{"StreamableHTTPHandler", "serveStatefulPOST"}, {"StreamableHTTPHandler", "serveStatefulGET"}, {"StreamableHTTPHandler", "serveStatefulDELETE"},
-			{"StreamableHTTPHandler", "lookupSession"},
+			{"StreamableHTTPHandler", "lookupSession"}, {"", "serveEphemeral"},
 			{"streamableServerConn", "servePOST"}, {"SSEHandler", "ServeHTTP"}, {"SSEServerTransport", "ServeHTTP"}} {
 			fd := c.Func("mcp", f.recv, f.name)
 			if fd == nil {
@@ -508,7 +508,7 @@ func gateOrder(c *Ctx, fd *ast.FuncDecl) []string {
 		"h.ephemeralConnectOpts": true, "connectStreamable": true, "validateMcpHeaders": true, "readBatch": true, "checkRequest": true,
 		"io.ReadAll": true, "session.ServeHTTP": true, "jsonrpc2.DecodeMessage": true, "h.getServer": true, "streamableAccepts": true,
 		"baseMediaType": true, "mime.ParseMediaType": true, "util.IsLoopback": true, "h.opts.CrossOriginProtection.Check": true,
-		"http.MaxBytesReader": true, "sessInfo.session.Close": true, "extractRequestMeta": true}
+		"http.MaxBytesReader": true, "sessInfo.session.Close": true, "extractRequestMeta": true, "serveEphemeral": true}
 	ast.Inspect(fd.Body, func(n ast.Node) bool {
 		switch x := n.(type) {
 		case *ast.FuncLit:
